@@ -240,7 +240,7 @@ func (r *Run) Finish(verifDir string, rules []*ruleInfo, started time.Time, seed
 			samples = append(samples, o)
 		}
 	}
-	var assume []string
+	assume := []string{"the Go toolchain's parser and type checker (go/packages, go/types) resolve the program as the compiler does; third-party packages (reflect2, cmap, fasthttp, websocket, net/http) behave as documented and are not analysed"}
 	for a := range r.Assume {
 		assume = append(assume, a)
 	}
